@@ -158,6 +158,7 @@ var domains = map[fieldID][]fval{
 		strv(strategyPrefix + "/multicast/v=9"),
 		strv(strategyPrefix + "/multicast/v1"),
 		strv(strategyPrefix + "/multicast/v=1/extra"),
+		strv(strategyPrefix + "/multicast/54=%00%01"), // version 1, not in shortest form
 		strv(strategyPrefix + "/nonexistent"),
 		strv(strategyPrefix),
 		strv("/localhost/nfd"),
